@@ -171,11 +171,83 @@ def _query_expr(body: list) -> Optional[ast.expr]:
     return ast.Call(func=ast.Name(id=fn, ctx=ast.Load()), args=[gen], keywords=[])
 
 
+class _EnvSubst(ast.NodeTransformer):
+    def __init__(self, env: dict):
+        self.env = env
+        self.shadow: list = []
+
+    def visit_Name(self, node):
+        if isinstance(node.ctx, ast.Load) and node.id in self.env and not any(node.id in s for s in self.shadow):
+            return copy.deepcopy(self.env[node.id])
+        return node
+
+    def visit_Lambda(self, node):
+        a = node.args
+        self.shadow.append({x.arg for x in a.posonlyargs + a.args + a.kwonlyargs})
+        self.generic_visit(node)
+        self.shadow.pop()
+        return node
+
+
+_PURE_CALLS = {"min", "max", "abs", "float", "int", "len", "sum", "sqrt", "bool", "str", "tuple", "Point", "Shape", "round"}
+
+
+def _pure_expr(e: ast.expr) -> bool:
+    for x in ast.walk(e):
+        if isinstance(x, ast.Call):
+            nm = x.func.id if isinstance(x.func, ast.Name) else (x.func.attr if isinstance(x.func, ast.Attribute) else "")
+            if nm not in _PURE_CALLS:
+                return False
+        if isinstance(x, (ast.NamedExpr, ast.Yield, ast.YieldFrom, ast.Await, ast.Lambda)):
+            return False
+    return True
+
+
+def _straight_line_expr(body: list) -> Optional[ast.expr]:
+    """a helper that computes plain locals (possibly adjusted under a condition) and returns an expression of them:
+    the returned expression with the locals replaced by their definitions (conditional adjustments become conditional
+    expressions)"""
+    env: dict = {}
+    if not body or not isinstance(body[-1], ast.Return) or body[-1].value is None:
+        return None
+
+    def sub(e):
+        return _EnvSubst(env).visit(copy.deepcopy(e))
+    for st in body[:-1]:
+        if isinstance(st, ast.AnnAssign) and st.value is not None and isinstance(st.target, ast.Name):
+            st = ast.Assign(targets=[st.target], value=st.value)
+        if isinstance(st, ast.Assign) and len(st.targets) == 1 and isinstance(st.targets[0], ast.Name) and _pure_expr(st.value):
+            env[st.targets[0].id] = sub(st.value)
+        elif isinstance(st, ast.Assign) and len(st.targets) == 1 and isinstance(st.targets[0], ast.Tuple) and isinstance(st.value, ast.Tuple) \
+                and len(st.targets[0].elts) == len(st.value.elts) and all(isinstance(t, ast.Name) for t in st.targets[0].elts) and _pure_expr(st.value):
+            vals = [sub(v) for v in st.value.elts]
+            for t, v in zip(st.targets[0].elts, vals):
+                env[t.id] = v
+        elif isinstance(st, ast.If) and not st.orelse and _pure_expr(st.test) and \
+                all(isinstance(x, ast.Assign) and len(x.targets) == 1 and isinstance(x.targets[0], ast.Name) and _pure_expr(x.value)
+                    and x.targets[0].id in env for x in st.body):
+            test = sub(st.test)
+            new = {}
+            inner = dict(env)
+            for x in st.body:
+                v = _EnvSubst(inner).visit(copy.deepcopy(x.value))
+                inner[x.targets[0].id] = v
+                new[x.targets[0].id] = v
+            for nm, v in new.items():
+                env[nm] = ast.IfExp(test=copy.deepcopy(test), body=v, orelse=env[nm])
+        else:
+            return None
+    return sub(body[-1].value)
+
+
 def _expr_form(h) -> Optional[ast.expr]:
     body = _body(h.node)
     if len(body) == 1 and isinstance(body[0], ast.Return) and body[0].value is not None:
         return body[0].value
-    return _query_expr(body)
+    q = _query_expr(body)
+    if q is not None:
+        return q
+    return _straight_line_expr(body)
 
 
 def _guards_to_nesting(body: list) -> list:
